@@ -36,9 +36,11 @@ def run(ctx: core.Ctx) -> int:
         mc2 = ctx.mc("Precedence", ctx.cfg_with("MC_C04.cfg", "t2", Depth=1, MaxTables=2), timeout=7200)   # (Depth 2 with 2 tables per file: 3e7 states, hours)
         mc_viol += [{"clause": f"model:{v}", "kf": "", "detail": mc2["out"][-2500:]} for v in mc2["violated"]]
     # 2. cases (TLC prints the project of every case)
-    gens = ctx.gen_json("Precedence", ctx.cfg_with("Gen_C04.cfg", "t", Depth=2 if q else 3))
+    # replayed on the real tool: the complete depth-2 space; depth 3 is complete at model level (above) and replayed as a
+    # large TLC sample (holding all 470 000 depth-3 projects in memory at once exhausted the 62 GB of this machine)
+    gens = ctx.gen_json("Precedence", ctx.cfg_with("Gen_C04.cfg", "t", Depth=2))
     ctx.exhaustive = True
-    n_s = 1500 if q else 25000
+    n_s = 1500 if q else 60000
     sample = ctx.gen_json("Precedence", ctx.cfg_with("Sample_C04.cfg", "t", SampleN=n_s), workers=1,
                           extra=["-seed", str(ctx.seed + 11)])
     # the same space with directory names that sort before "REUSE.toml" as strings ('3', 'D'): order of the walk
@@ -68,7 +70,8 @@ def run(ctx: core.Ctx) -> int:
              "glob(2)) complete to Depth, dep5 variants, plus TLC-sampled (RandomElement, -seed) depth-3 chains with up "
              "to two tables per file; non-trivial = some REUSE.toml/dep5/.license is involved",
         mc_violations=mc_viol,
-        extra={"exhaustive_bound": {"Depth": 2 if q else 3, "MaxTables": 1}, "sampled_cases": len(sample)})
+        extra={"exhaustive_bound": {"model": {"Depth": 2 if q else 3, "MaxTables": 1}, "replayed": {"Depth": 2, "MaxTables": 1}},
+               "sampled_cases": len(sample)})
 
 
 def replay(ctx: core.Ctx, path: str) -> int:
